@@ -445,6 +445,9 @@ pub fn generate_query_iter_destroy(
                     // Iterate in reverse order to still visit each entity once.
                     // Note: This assumes that we remove entities by swapping.
                     for idx in (0..len).rev() {
+                        // Destroying an entity advances the archetype version, so re-read it
+                        // here to keep direct entity params valid after an earlier destroy.
+                        let version = archetype.version();
                         let slices = #get_slices;
                         match closure(#(#attrs #bind),*).into() {
                             EcsStepDestroy::Continue => {
